@@ -45,9 +45,9 @@ fn main() {
             engine::quiet_panics();
             let id = static_id(&args[2]);
             let mut run = Run::new(id, tier_from_env(), seed_from_env());
-            match id {
-                "C01" => props::c01::run(&mut run),
-                _ => {
+            match props::registry(id) {
+                Some((f, _)) => f(&mut run),
+                None => {
                     eprintln!("property {} has no check in this build", id);
                     std::process::exit(2);
                 }
@@ -67,9 +67,9 @@ fn main() {
                 eprintln!("cannot parse {}: {}", args[3], e);
                 std::process::exit(2)
             });
-            let verdict = match id {
-                "C01" => props::c01::replay(&file),
-                _ => Err(format!("no replay for {}", id)),
+            let verdict = match props::registry(id) {
+                Some((_, r)) => r(&file),
+                None => Err(format!("no replay for {}", id)),
             };
             match verdict {
                 Ok(Ok(_)) => {
